@@ -444,7 +444,21 @@ def c11(tier, seed):
             pfx = 'F%d.' % fk
             queries.append('(filter %d (hog %s) (ext %s) (int %s))' % (fk, ' '.join(map(gen.q, hog_ids)), ' '.join(map(gen.q, ext_ids)), ' '.join(map(gen.q, int_ids))))
             try:
-                hf = core.load_py(D, filter_object=f)
+                transport = ex.rng.choice(['string', 'string', 'file', 'gz'])
+                ex.res.count('filter_transport_' + transport)
+                if transport == 'string':
+                    hf = core.load_py(D, filter_object=f)
+                else:
+                    # the first (indexing) pass and the second pass both read the file (plain or gzip)
+                    path = os.path.join(ex.tmp, 'flt.orthoxml' + ('.gz' if transport == 'gz' else ''))
+                    xml = gen.orthoxml(D.species, D.groups)
+                    if transport == 'gz':
+                        with gzip.open(path, 'wt') as fh:
+                            fh.write(xml)
+                    else:
+                        with open(path, 'w') as fh:
+                            fh.write(xml)
+                    hf = pyham.Ham(tree_file=core.nwk_of(D), hog_file=path, use_internal_name=(D.naming == 'own'), filter_object=f)
             except Exception as e:      # noqa
                 bad.append('filtered load raised %s: %s' % (type(e).__name__, e))
                 o.put(pfx + 'load', 'err:' + ob.err_name(e))
@@ -552,8 +566,10 @@ def c12(tier, seed):
                         o.put('irt', key + '|err:' + ob.err_name(e))
                         bad.append('re-loading the export of %s raised %s: %s' % (key, type(e).__name__, e))
                 try:
-                    vis = h.create_iHam(nd)
+                    vis = h.create_iHam(nd, outfile=ex.tmp + '/iham.html')
                     html = vis.HTML
+                    if open(ex.tmp + '/iham.html').read() != html:
+                        bad.append('create_iHam(outfile=...) of %s wrote something else than the page it returns' % key)
                     sub_nwk = h.taxonomy.get_newick_from_tree(nd.genome.taxon)
                     if xs.split('<groups>')[-1] not in html and ob.OrthoXML_manager(nd).get_orthoxml_str().split('<groups')[-1] not in html:
                         bad.append('iHam page of %s does not embed the orthoXML' % key)
@@ -684,10 +700,25 @@ def c19(tier, seed):
                         r = repr(x)
                         if 'id=%s' % tn.hid not in r or 'level=%s' % nf(tn.tx) not in r:
                             bad.append('display string %s lacks id/level of %s' % (r, tr.key(tn)))
+                    else:
+                        # a group written without an id: the display string falls back to the enclosing id
+                        try:
+                            r = repr(x)
+                            if 'level=%s' % nf(tn.tx) not in r:
+                                bad.append('display string %s lacks the level of %s' % (r, tr.key(tn)))
+                            ex.res.count('display_strings_of_idless_groups')
+                        except Exception as e:      # noqa
+                            bad.append('display string of %s raised %s' % (tr.key(tn), type(e).__name__))
                 else:
                     ex.res.count('synthesised_groups')
                     if dict(sc) or dict(x._properties):
                         bad.append('synthesised HOG %s carries annotations' % tr.key(tn))
+                    try:
+                        r = repr(x)
+                        if 'level=%s' % nf(tn.tx) not in r:
+                            bad.append('display string %s lacks the level of %s' % (r, tr.key(tn)))
+                    except Exception as e:      # noqa
+                        bad.append('display string of %s raised %s' % (tr.key(tn), type(e).__name__))
         for g in h.get_list_extant_genes():
             xr = dict(decl.get(g.unique_id, []))
             if (g.gene_id, g.prot_id, g.transcript_id) != (xr.get('geneId'), xr.get('protId'), xr.get('transcriptId')):
@@ -695,6 +726,11 @@ def c19(tier, seed):
             gx = g.get_dict_xref()
             if gx != dict(xr, id=g.unique_id):
                 bad.append('get_dict_xref of gene %s' % g.unique_id)
+            try:
+                if g.unique_id not in repr(g):
+                    bad.append('display string of gene %s lacks its id' % g.unique_id)
+            except Exception as e:      # noqa
+                bad.append('display string of gene %s raised %s' % (g.unique_id, type(e).__name__))
         if bad:
             ex.fail(cid, D, bad)
         ex.submit(cid, D, o.tags, ['load', 'genes', 'loft'], emit=['ann'], extra=o)
